@@ -7,7 +7,7 @@ cd /verif
 git -C /repo diff --quiet || { echo "/repo is not clean"; exit 2; }
 git -C /repo apply "$P" || { echo "patch does not apply"; exit 2; }
 OUT=/tmp/refrun-$TAG; rm -rf $OUT; mkdir -p $OUT
-for i in $(seq -w 1 20); do echo C$i; done | xargs -P 4 -I{} sh -c "bin/check {} quick > $OUT/{}.log 2>&1; echo \"{} rc=\$?\" >> $OUT/summary.txt"
+for i in $(seq -w 1 20); do echo C$i; done | xargs -P 5 -I{} sh -c "bin/check {} quick > $OUT/{}.log 2>&1; echo \"{} rc=\$?\" >> $OUT/summary.txt"
 git -C /repo checkout -- .
 echo "== $TAG: $(sort $OUT/summary.txt | grep -c 'rc=0') of 20 checks exit 0"
 grep -h "VIOLATION" $OUT/*.log | cut -c1-200
